@@ -124,7 +124,16 @@ def run_property(prop, tier, seed):
             try:
                 bounded = json.loads(last)
             except Exception:
-                bounded_err = 'bounded tier produced no result (exit %s): %s' % (cp.returncode, (cp.stdout + cp.stderr)[-3000:])
+                if cp.returncode < 0:
+                    # the real compiled code crashed the interpreter (signal): memory unsafety is a violation by itself
+                    key = 'native-crash:signal%d' % (-cp.returncode)
+                    if known_match(known, prop, key) is None:
+                        payload = {'property': prop, 'kind': 'native-crash', 'key': key, 'module': mod.BOUNDED_MODULE,
+                                   'signal': -cp.returncode, 'output': (cp.stdout + cp.stderr)[-3000:],
+                                   'note': 'the bounded tier process running the real code was killed by a signal'}
+                        violations.append((key, write_replay(prop, key, payload), False))
+                else:
+                    bounded_err = 'bounded tier produced no result (exit %s): %s' % (cp.returncode, (cp.stdout + cp.stderr)[-3000:])
             if bounded is not None:
                 bounded['build'] = binfo
         except Exception as e:
@@ -254,6 +263,14 @@ def replay(path):
         sys.stdout.write(cp.stdout)
         sys.stderr.write(cp.stderr)
         return cp.returncode
+    if payload['kind'] == 'native-crash':
+        cp, info = native.run_native(payload['module'], ['--tier', 'quick', '--seed', '0'])
+        if cp.returncode < 0:
+            print('REPRODUCED: native process killed by signal %d' % (-cp.returncode))
+            print('VIOLATION property=%s replay=%s' % (prop, path))
+            return 1
+        print('not reproduced on the current tree')
+        return 0
     print(json.dumps({k: payload.get(k) for k in ('property', 'key', 'solver', 'solver_output', 'counter_model_inputs', 'native_replay')}, indent=1, default=str))
     # an obligation replay: re-run the property's proof tier and report whether the obligation still fails
     mod = importlib.import_module('props.' + prop)
